@@ -115,7 +115,14 @@ func runPtyFamily(c *runCtx) error {
 
 func execPtyCase(c *runCtx, pc *ptyCase, cases lineW) error {
 	cases.WriteString(pc.header() + "\n")
-	master, slave, err := openPty(pc.rows, pc.cols)
+	// every third case: the window has another size when the container is created and gets its size before the first
+	// frame — the user resized the terminal; every frame has to fit the terminal as it is when the frame is drawn
+	resize := pc.k%3 == 1
+	r0, c0 := pc.rows, pc.cols
+	if resize {
+		r0, c0 = pc.rows+7, pc.cols+23
+	}
+	master, slave, err := openPty(r0, c0)
 	if err != nil {
 		cases.WriteString(fmt.Sprintf("NOPTY %v\nend\n", err))
 		c.count("nopty")
@@ -169,6 +176,13 @@ func execPtyCase(c *runCtx, pc *ptyCase, cases lineW) error {
 		opts = append(opts, mpb.PopCompletedMode())
 	}
 	p := mpb.New(opts...)
+	if resize {
+		ws := &unix.Winsize{Row: uint16(pc.rows), Col: uint16(pc.cols)}
+		if err := unix.IoctlSetWinsize(int(master.Fd()), unix.TIOCSWINSZ, ws); err != nil {
+			return fmt.Errorf("case %d: resize: %v", pc.k, err)
+		}
+		c.count("resized_after_new")
+	}
 	bars := make([]*mpb.Bar, pc.nbars)
 	for i := range bars {
 		i := i
